@@ -415,6 +415,23 @@ def style_case(way, fg, bg, attrs):
         if isinstance(r, _Raised):
             return [("style_codes|added|raises", "add_style %r" % (r,))]
         judge("added", _real(f.format, "<%s>%s</%s>" % (TAG, X, TAG)))
+        # "added later" also means: under a tag the formatter already knows -- one of the default style set, and the tag
+        # that has just been added (re-defined with the complementary attribute set): the later style is what is rendered
+        for label, tag, st in (("added|default-tag-redefined", "info", make_style("info", fg, bg, attrs)),
+                               ("added|own-tag-redefined", TAG, None)):
+            if st is None:
+                other = make_style(TAG, bg if bg not in (None, "default") else "red", fg if fg not in (None, "default") else "blue",
+                                   [name for name, _c in ATTRS if name not in attrs][:2])
+                r0 = _real(f.add_style, other)
+                if isinstance(r0, _Raised):
+                    fails.append(("style_codes|%s|raises" % label, "add_style %r" % (r0,)))
+                    continue
+                st = make_style(TAG, fg, bg, attrs)
+            r2 = _real(f.add_style, st)
+            if isinstance(r2, _Raised):
+                fails.append(("style_codes|%s|raises" % label, "add_style %r" % (r2,)))
+                continue
+            judge(label, _real(f.format, "<%s>%s</%s>" % (tag, X, tag)))
         pf = _real(PlainFormatter)
         if isinstance(pf, _Raised):
             fails.append(("style_codes|added-plain|raises", "PlainFormatter() %r" % (pf,)))
